@@ -277,6 +277,17 @@ func (P *Program) FindFunc(pkgPath, key, inst string) *ssa.Function {
 		return nil
 	}
 	// generic: key "evictedQueue.add" + inst "Event" -> "evictedQueue[Event].add"; "newSum" + "int64" -> "newSum[int64]"
+	// (function keys carry unqualified type arguments: "time.Duration" is looked up as "Duration")
+	if f := P.findFuncInst(pkgPath, key, inst); f != nil {
+		return f
+	}
+	if i := strings.LastIndex(inst, "."); i >= 0 {
+		return P.findFuncInst(pkgPath, key, inst[i+1:])
+	}
+	return nil
+}
+
+func (P *Program) findFuncInst(pkgPath, key, inst string) *ssa.Function {
 	cands := []string{}
 	if i := strings.Index(key, "."); i >= 0 {
 		rest := key[i:]
